@@ -1,4 +1,5 @@
 import DaeVerif.C07.Proofs
+import DaeVerif.C07.Skeleton
 /-!
 # C07 — property theorems
 
@@ -631,4 +632,22 @@ theorem response_bit_refused (cfg : Cfg) (cache : Cache) (dst : Nat) (q? : Optio
     o.reply = .error .notRequest ∧ o.trace = [] ∧ o.cache = cache := by
   simp [handle]
 
+/-! ## The controller skeleton follows the step order of the source -/
+
+/-- **Source-structure guard.** The decision steps of `HandleWithResponseWriter_`,
+`handleWithResponseWriter_`, `dialSend` and `backgroundRefresh`, extracted from the Go source in source
+order on every check run (`Gen/Skeleton.lean`, translator `c07skel`), are exactly the steps — in exactly the
+order — the model skeleton `handle` / `dialSend` / `handleOpt` was written against (`Skeleton.lean`): route
+before everything; the reject test, family removal and empty answer before any cache lookup; resolution under
+the singleflight key `responseCacheKey`; in `dialSend` the depth guard `>=`, forward, question check, response
+routing, accept / reject (empty `Answer`) / re-ask at `nextUpstream` with `invokingDepth+1`, every store under
+`responseCacheKey`; the background refresh re-enters `dialSend` at depth 0 with the routed upstream. -/
+theorem controller_steps_as_modelled :
+    Gen.steps_HandleWithResponseWriter_ = modelled_HandleWithResponseWriter_ ∧
+    Gen.steps_handleWithResponseWriter_ = modelled_handleWithResponseWriter_ ∧
+    Gen.steps_dialSend = modelled_dialSend ∧
+    Gen.steps_backgroundRefresh = modelled_backgroundRefresh := by
+  decide
+
 end DaeVerif.C07.Props
+
